@@ -1,4 +1,5 @@
 import ITree.Props.C20
+import ITree.Lemmas.KListHistory
 /-!
 # C18 — a panicking user callback leaves every collection valid and un-torn
 
@@ -61,6 +62,42 @@ theorem C18_list_partial_purge (s : KL V) (t : Int) (a b : List (Ent V)) (hs : s
   · simp only [hs, live_append, live_idem]
   · rw [hs]
     exact List.Sublist.append List.filter_sublist (List.Sublist.refl _)
+
+/-- expiring list: the state at every `expiration()` callback of the purge and during the binary
+search of an insert or a query — which is what a panicking callback leaves behind — keeps the
+invariant (cached minimum is a lower bound), stays sorted and has the live content of the state before
+the operation -/
+theorem C18_klist_states (s : KL V) (e : Ent V) (t : Int) (h : s.Inv) (hs : SortedE s.buf) :
+    ∀ st, (st ∈ (s.insertStates e t).1 ∨ st = (s.insertStates e t).2 ∨
+           st ∈ (s.queryStates t).1 ∨ st = (s.queryStates t).2) →
+      st.Inv ∧ SortedE st.buf ∧ live t st.buf = live t s.buf := by
+  have hpurge : ∀ st ∈ s.purgeStates t, st.Inv ∧ SortedE st.buf ∧ live t st.buf = live t s.buf := by
+    intro st hst
+    simp only [KL.purgeStates] at hst
+    split at hst
+    · simp at hst
+    · simp only [List.mem_map, List.mem_range] at hst
+      obtain ⟨i, _, rfl⟩ := hst
+      have hsplit : s.buf = s.buf.take i ++ s.buf.drop i := (List.take_append_drop i s.buf).symm
+      obtain ⟨a1, a2, a3⟩ := C18_list_partial_purge s t (s.buf.take i) (s.buf.drop i) hsplit h
+      exact ⟨a1, List.Pairwise.sublist (List.Sublist.map _ a3) hs, a2⟩
+  obtain ⟨c1, c2, _⟩ := h.clearExpired t
+  have hclear : (s.clearExpired t).Inv ∧ SortedE (s.clearExpired t).buf ∧
+      live t (s.clearExpired t).buf = live t s.buf :=
+    ⟨c2, by rw [c1]; exact hs.live t, by rw [c1, live_idem]⟩
+  intro st hst
+  rcases hst with hst | rfl | hst | rfl
+  · simp only [KL.insertStates, List.mem_append, List.mem_singleton] at hst
+    rcases hst with hst | rfl
+    · exact hpurge st hst
+    · exact hclear
+  · simp only [KL.insertStates]
+    refine ⟨?_, hclear.2.1, hclear.2.2⟩
+    intro x hx
+    have := hclear.1 x hx
+    simp only; omega
+  · exact hpurge st hst
+  · exact hclear
 
 /-! non-vacuity: the states recorded for a query that removes an expired root on its way -/
 example : (((St.new 0 : St Nat).kInsert ⟨2, 1, 20⟩ 0).bind fun (s, _) =>
